@@ -1,17 +1,25 @@
 package meta
 
 import (
+	"fmt"
 	"reflect"
 )
 
-// Len returns the length of v
+// Len returns the length of v, 0 if v has no length
 func Len(v interface{}) int {
-	if v == nil {
-		return 0
+	n, _ := LenE(v)
+	return n
+}
+
+// LenE returns the length of v, or an error if v has no length.
+// This is the function templates call as `len`.
+func LenE(v interface{}) (int, error) {
+	rv := reflect.Indirect(reflect.ValueOf(v))
+	switch rv.Kind() {
+	case reflect.Invalid: // nil, nil pointer
+		return 0, nil
+	case reflect.Array, reflect.Chan, reflect.Map, reflect.Slice, reflect.String:
+		return rv.Len(), nil
 	}
-	rv := reflect.ValueOf(v)
-	if rv.Kind() == reflect.Ptr {
-		rv = rv.Elem()
-	}
-	return rv.Len()
+	return 0, fmt.Errorf("can not take the length of %T", v)
 }
